@@ -1,40 +1,39 @@
-/* decls_table.h -- the declaration family (selected with -DDECL=<k>).  Long names are single characters so that
- * fully symbolic tokens of <= 4 bytes can spell them ("--o", "--o=", "-p=v"); letters differ from names in some
- * tables and coincide in others. */
+/* decls_table.h -- the declaration family.  Long names are single characters so that fully symbolic tokens of <= 4 bytes can
+ * spell them ("--o", "--o=", "-p=v"); letters differ from names in some tables and coincide in others.
+ * The same table is compiled into the C++ harness (which builds the real parser from DECLS[k]) and into the C harness main
+ * (reference specification): only the INDEX crosses the boundary. */
 #ifndef DECLS_TABLE_H
 #define DECLS_TABLE_H
 #include "decl.h"
-#ifndef DECL
-#define DECL 1
-#endif
 #define TOG(name, letter, rev, hasd, d, env, grp) { K_TOGGLE, name, letter, rev, hasd, "", d, env, 0, grp }
 #define OPT(name, letter, hasd, d, env, optional, grp) { K_OPTION, name, letter, 0, hasd, d, 0, env, optional, grp }
 #define MUL(name, letter, hasd, d, env, optional, grp) { K_MULTI, name, letter, 0, hasd, d, 0, env, optional, grp }
-#if DECL == 1   /* two toggles, optional option and multi-option, all with letters; 2 positionals */
-static const struct decl D = { 4, { TOG("a", "x", 0, 0, 0, "", 0), TOG("b", "y", 0, 0, 0, "", 0), OPT("o", "p", 0, "", "", 1, 0), MUL("m", "q", 0, "", "", 1, 0) }, 2, 0 };
-#elif DECL == 2 /* reversible toggle with default 1 whose letter equals its name, toggle without letter, option with default; no positionals */
-static const struct decl D = { 3, { TOG("a", "a", 1, 1, 1, "", 0), TOG("b", "", 0, 0, 0, "", 0), OPT("o", "", 1, "d", "", 0, 0) }, 0, 0 };
-#elif DECL == 3 /* required option and required multi-option, toggle; unlimited positionals, greedy */
-static const struct decl D = { 3, { OPT("o", "o", 0, "", "", 0, 0), MUL("m", "", 0, "", "", 0, 0), TOG("t", "t", 0, 0, 0, "", 0) }, POS_UNLIMITED, 1 };
-#elif DECL == 4 /* toggle + optional option; one positional, greedy */
-static const struct decl D = { 2, { TOG("a", "x", 0, 0, 0, "", 0), OPT("o", "p", 0, "", "", 1, 0) }, 1, 1 };
-#elif DECL == 5 /* environment-bound, optional, no defaults */
-static const struct decl D = { 3, { OPT("o", "", 0, "", "EO", 1, 0), MUL("m", "", 0, "", "EM", 1, 0), TOG("t", "t", 0, 0, 0, "ET", 0) }, 0, 0 };
-#elif DECL == 6 /* environment-bound with defaults */
-static const struct decl D = { 3, { OPT("o", "", 1, "d", "EO", 0, 0), MUL("m", "", 1, "d", "EM", 0, 0), TOG("t", "", 1, 1, 1, "ET", 0) }, 0, 0 };
-#elif DECL == 7 /* environment-bound, required, no default */
-static const struct decl D = { 2, { OPT("o", "", 0, "", "EO", 0, 0), TOG("t", "", 0, 1, 2, "ET", 0) }, 0, 0 };
-#elif DECL == 8 /* environment-bound required multi-option */
-static const struct decl D = { 1, { MUL("m", "", 0, "", "EM", 0, 0) }, 0, 0 };
-#elif DECL == 9 /* two groups; unlimited positionals, not greedy */
-static const struct decl D = { 3, { TOG("a", "x", 0, 0, 0, "", 0), OPT("o", "p", 0, "", "", 1, 1), MUL("m", "", 0, "", "", 1, 1) }, POS_UNLIMITED, 0 };
-#elif DECL == 10 /* nothing but a toggle without letter; no positionals */
-static const struct decl D = { 1, { TOG("b", "", 0, 0, 0, "", 0) }, 0, 0 };
-#elif DECL == 11 /* not bound to env, no default: optional vs required pair */
-static const struct decl D = { 2, { OPT("o", "", 0, "", "", 0, 0), MUL("m", "", 0, "", "", 1, 0) }, 0, 0 };
-#elif DECL == 12 /* option with value + 2 positionals, greedy off; toggle with default 2 */
-static const struct decl D = { 2, { OPT("o", "p", 0, "", "", 1, 0), TOG("a", "x", 0, 1, 2, "", 0) }, 2, 0 };
-#else
-#error "unknown DECL"
-#endif
+#define NDECLS 12
+static const struct decl DECLS[NDECLS + 1] = {
+    { 0, { { 0 } }, 0, 0 },   /* index 0 unused */
+    /* two toggles, optional option and multi-option, all with letters; 2 positionals */
+    { 4, { TOG("a", "x", 0, 0, 0, "", 0), TOG("b", "y", 0, 0, 0, "", 0), OPT("o", "p", 0, "", "", 1, 0), MUL("m", "q", 0, "", "", 1, 0) }, 2, 0 },
+    /* reversible toggle with default 1 whose letter equals its name, toggle without letter, option with default; no positionals */
+    { 3, { TOG("a", "a", 1, 1, 1, "", 0), TOG("b", "", 0, 0, 0, "", 0), OPT("o", "", 1, "d", "", 0, 0) }, 0, 0 },
+    /* required option and required multi-option, toggle; unlimited positionals, greedy */
+    { 3, { OPT("o", "o", 0, "", "", 0, 0), MUL("m", "", 0, "", "", 0, 0), TOG("t", "t", 0, 0, 0, "", 0) }, POS_UNLIMITED, 1 },
+    /* toggle + optional option; one positional, greedy */
+    { 2, { TOG("a", "x", 0, 0, 0, "", 0), OPT("o", "p", 0, "", "", 1, 0) }, 1, 1 },
+    /* environment-bound, optional, no defaults */
+    { 3, { OPT("o", "", 0, "", "EO", 1, 0), MUL("m", "", 0, "", "EM", 1, 0), TOG("t", "t", 0, 0, 0, "ET", 0) }, 0, 0 },
+    /* environment-bound with defaults */
+    { 3, { OPT("o", "", 1, "d", "EO", 0, 0), MUL("m", "", 1, "d", "EM", 0, 0), TOG("t", "", 1, 1, 1, "ET", 0) }, 0, 0 },
+    /* environment-bound, required, no default */
+    { 2, { OPT("o", "", 0, "", "EO", 0, 0), TOG("t", "", 0, 1, 2, "ET", 0) }, 0, 0 },
+    /* environment-bound required multi-option */
+    { 1, { MUL("m", "", 0, "", "EM", 0, 0) }, 0, 0 },
+    /* two groups; unlimited positionals, not greedy */
+    { 3, { TOG("a", "x", 0, 0, 0, "", 0), OPT("o", "p", 0, "", "", 1, 1), MUL("m", "", 0, "", "", 1, 1) }, POS_UNLIMITED, 0 },
+    /* nothing but a toggle without letter; no positionals */
+    { 1, { TOG("b", "", 0, 0, 0, "", 0) }, 0, 0 },
+    /* not bound to env, no default: optional vs required pair */
+    { 2, { OPT("o", "", 0, "", "", 0, 0), MUL("m", "", 0, "", "", 1, 0) }, 0, 0 },
+    /* option with value + 2 positionals, greedy off; toggle with default 2 */
+    { 2, { OPT("o", "p", 0, "", "", 1, 0), TOG("a", "x", 0, 1, 2, "", 0) }, 2, 0 },
+};
 #endif
